@@ -430,6 +430,8 @@ class Prims:
             return item in container
         if is_sym(container) and z3.is_string(container):
             return z3.Contains(container, z3.StringVal(item) if isinstance(item, str) else item)
+        if isinstance(container, str) and isinstance(item, str):
+            return item in container
         if isinstance(container, str) and is_sym(item) and z3.is_string(item):
             return z3.Contains(z3.StringVal(container), item)
         if isinstance(container, GhostSet):
@@ -442,6 +444,9 @@ class Prims:
         return [(st, self.binop(ex, st, node.op, a, b, node))]
 
     def binop(self, ex, st, op, a, b, node):
+        if isinstance(op, ast.BitOr) and all(isinstance(x, (ModRef, RepoFunc)) or (isinstance(x, tuple) and all(isinstance(y, (ModRef, RepoFunc)) for y in x)) for x in (a, b)):
+            # a union of types (X | Y) as used in isinstance: the tuple of its members
+            return (a if isinstance(a, tuple) else (a,)) + (b if isinstance(b, tuple) else (b,))
         for x, y, flip in ((a, b, False), (b, a, True)):
             if hasattr(x, "pyvc_binop"):
                 return x.pyvc_binop(ex, st, op, y, flip, node, self)
